@@ -12,7 +12,7 @@ class C19(TreeCheck):
         "programs from g_depth: LOKY_MAX_DEPTH in {1,2,3,4, default, 0, -1}; a chain of nested executors (plain/reusable, loky/loky_init_main, "
         "optionally the fork context at depth 1 or 2) built down to the limit plus one attempt beyond it; every level reports the depth it observes and "
         "the outcome of its construction; histories where the same workers serve a second chain, are respawned after an idle time-out, or are added "
-        "by a resize; family init_nested (2 of 8 programs): a pool in the chain whose workers build one more executor in their initializer, used by a later task of that worker; plus jitter (Z). Non-trivial = at least one nested construction was attempted; distinct = (MAX_DEPTH, chain depth, fork level, "
+        "by a resize; family init_nested (2 of 8 programs): a pool in the chain whose workers build one more executor in their initializer, used by a later task of that worker; family fork_top (2 of 8): the top-level executor itself uses the fork context (allowed at depth 0), its forked workers - which inherit the parent's module state and the per-method singleton context object accepted there - ask for the fork context again (must be refused) and for loky workers (allowed below the limit); plus jitter (Z). Non-trivial = at least one nested construction was attempted; distinct = (MAX_DEPTH, chain depth, fork level, "
         "kind, history variant, tuple of (depth, outcome))."
     )
     assumptions = ["depths beyond 5 are not explored for the unlimited settings (each level costs a process spawn)"]
@@ -21,7 +21,7 @@ class C19(TreeCheck):
         n = 40 if tier == "quick" else 400
         out = []
         for i in range(n):
-            prog, meta = programs.g_depth(rng, family="init_nested" if i % 8 in (2, 5) else None)
+            prog, meta = programs.g_depth(rng, family="init_nested" if i % 8 in (2, 5) else "fork_top" if i % 8 in (3, 6) else None)
             out.append({"program": prog, "config": {"env": meta["env"]}, "meta": meta, "timeouts": {"hard_s": 200}})
         return out
 
